@@ -505,6 +505,11 @@ class Unit:
                 text = rx.r4_struct_fields(text)
             out.count('R4', 1)
         text = self.rewrite(text, out, name)
+        if kind == 'const':
+            # R8 (generic form): `uN::max_value()` / `min_value()` are exec fns, not callable in a const initialiser under Verus - the
+            # constants uN::MAX / uN::MIN are the same values by definition
+            text, n_ = re.subn(r'\b(u8|u16|u32|u64|u128|usize|i8|i16|i32|i64|i128|isize)::(max|min)_value\(\)', lambda m_: '%s::%s' % (m_.group(1), m_.group(2).upper()), text)
+            out.count('R8', n_)
         for a in attrs:
             out.emit(a, {'kind': 'src', 'file': rel, 'line': rx.line_of(it.src, it.begin)})
         out.emit_src(text, rel, rx.line_of(it.src, it.sig_begin))
